@@ -273,6 +273,19 @@ def journey(t, i):
     return out
 
 
+def features_at(t, i, step):
+    """features of layer i just before operation `step` of the history (the moment of an adoption): the history is
+    replayed on a fresh world up to that step; attributes set by earlier operations (clipping flags, hidden
+    ancestors, opacity ...) count, those of the final state alone do not"""
+    try:
+        w2 = T.build(tuple(t.world.recipe))
+        for op in t.ops[:step]:
+            T.apply_real(w2, op)
+        return features(w2.objs[i])
+    except Exception:  # noqa
+        return []
+
+
 def pixel_problems(t, snap):
     """readable + kept on the final world of trace t; returns [(signature, what, layer id)]"""
     out = []
@@ -301,7 +314,7 @@ def pixel_problems(t, snap):
         v = visible(now)
         if not same_visible(before["visible"], v, tol=max(1, len(converted))):
             feats = (["invisible-at-adoption"] if any(not s[3] for s in converted) else []) + \
-                list(dict.fromkeys(before["features"] + features(l))) + (["depth32"] if l._psd.depth == 32 else []) + \
+                list(dict.fromkeys(before["features"] + features(l) + [f for s_ in converted for f in features_at(t, i, s_[0])])) + (["depth32"] if l._psd.depth == 32 else []) + \
                 (["icc-profile"] if any(has_icc(p) for p in visited) else [])
             feats = [f for f in feats if f != "hidden-layer"]
             if feats and converted:
